@@ -144,10 +144,10 @@ func runC06(cfg *vh.Config) error {
 		compact := tree.Print(nil)
 		if len(compact) < 400 || r.Chance(10) {
 			for _, p := range codecgen.Prefixes(compact, 60, r) {
-				add("truncated document", t, p, r.Chance(35))
+				add("truncated document", t, p, r.Chance(25))
 			}
 			for _, nd := range codecgen.NullEverywhere(tree) {
-				add("null at a value position", t, nd.Print(nil), r.Chance(50))
+				add("null at a value position", t, nd.Print(nil), r.Chance(40))
 			}
 		}
 		for k := 0; k < 4; k++ {
@@ -186,7 +186,7 @@ func runC06(cfg *vh.Config) error {
 						val = codecgen.Obj().Add("k", v)
 					}
 					doc := codecgen.Obj().Add(p.JSON, val).Print(nil)
-					add("odd value at a member position", t, doc, r.Chance(22))
+					add("odd value at a member position", t, doc, r.Chance(map[bool]int{true: 9, false: 22}[cfg.Tier == "quick"]))
 				}
 			}
 		}
